@@ -138,6 +138,7 @@ func c10Scenarios(seed uint64, thorough bool) []c10scn {
 		tr := trf()
 		ver := ti + 1
 		add(mk(fmt.Sprintf("t%d:valid", ver), ver, build(tr, -1, nil, true)))
+		strayDone := 0
 		for at, e := range tr {
 			if !e.isW {
 				continue
@@ -176,6 +177,19 @@ func c10Scenarios(seed uint64, thorough bool) []c10scn {
 				f := e.frame
 				f.typ = ty
 				add(mk(fmt.Sprintf("%s:typ%d", tag, ty), ver, build(tr, at, []c10op{wraw(f.bytes())}, true)))
+			}
+			// a type nobody handles and an id nobody awaits together with a lying length (header only, then the peer is gone):
+			// whatever the client does with such a stray message, it must not size anything by the declared length
+			if e.stage != "first" && strayDone < 2 {
+				strayDone++
+				for _, ty := range []int{100, 4, 20, 950} {
+					for _, l := range []uint32{uint32(10 + limit + 1), 1 << 28, 1<<32 - 1} {
+						f := c10frame{e.frame.ver, ty, e.frame.id ^ 0x5a5a0000, nil}
+						m := f.bytes()
+						binary.BigEndian.PutUint32(m[2:6], l)
+						add(mk(fmt.Sprintf("%s:stray%d:len%d", tag, ty, l), ver, build(tr, at, []c10op{wraw(m)}, false)))
+					}
+				}
 			}
 			// payload damage: random bytes flipped, random tails, garbage instead
 			nd := 6
